@@ -32,6 +32,8 @@ ASSUMPTIONS = [
     "block strings whose value cannot be the result of lexing any block string (e.g. leading blank line) are exercised only as programmatic nodes and only required to round-trip when is_printable_as_block_string accepts them",
 ]
 LAYOUT = ["a", " ", "\n", '"', "\\", "\r", "\t"]
+# line-level alphabet: indentation x words, the dimension the block-string printing decisions depend on
+LINE_ALPHA = ["a", " a", "  a", "a a", " a a", "\ta b", "", '"', " \\"]
 FLAGS = [(False, False), (True, True), (True, False), (False, True)]
 
 
@@ -58,6 +60,8 @@ def shards(tier):
             out.append(("layout", (i, j)))
     out.append(("wrap", 0))
     out.append(("strshort", 0))
+    for i in range(len(LINE_ALPHA)):
+        out.append(("lines", i))
     return out
 
 
@@ -312,6 +316,16 @@ def run_shard(shard, tier):
         for n in range(0, L - 1):
             for t in itertools.product(syms, repeat=n):
                 body = syms[i] + syms[j] + "".join(t)
+                cur["body"] = body
+                check_string(body, res, viol, full=False)
+                res.states += 1
+                res.transitions += 1
+    elif kind == "lines":
+        cur["kind"] = "str"
+        first = LINE_ALPHA[arg]
+        for n in (1, 2) if tier == "quick" else (1, 2, 3):
+            for t in itertools.product(LINE_ALPHA, repeat=n):
+                body = "\n".join((first,) + t)
                 cur["body"] = body
                 check_string(body, res, viol, full=False)
                 res.states += 1
